@@ -28,7 +28,7 @@ theorem andThen_of_some {r : Res} {f : World → Res} {e : Err} (h : r.1 = some 
 /-! ### I/O calls never touch the image, the binding flag or the abstract output -/
 
 /-- the part of the world that I/O calls cannot change -/
-def World.stat (w : World) : Core × Bool × List Chunk := (w.img, w.bound, w.out)
+def World.stat (w : World) : Core × Bool × List Chunk × Option Nat := (w.img, w.bound, w.out, w.live)
 
 theorem applyCall_stat (c : IoCall) (w : World) : (applyCall c w).stat = w.stat := by
   unfold applyCall
@@ -51,10 +51,10 @@ theorem ioCall_stat (fault : Fault) (c : IoCall) (w : World) : (ioCall fault c w
         · simp [applyCall_stat]; rfl
       · simp [applyCall_stat]; rfl
 
-theorem ioCall_keeps (fault : Fault) (c : IoCall) (s : Core × Bool × List Chunk) (w : World)
+theorem ioCall_keeps (fault : Fault) (c : IoCall) (s : Core × Bool × List Chunk × Option Nat) (w : World)
     (h : w.stat = s) : (ioCall fault c w).2.stat = s := by rw [ioCall_stat, h]
 
-theorem ioMany_keeps (fault : Fault) (cs : List IoCall) (s : Core × Bool × List Chunk) (w : World)
+theorem ioMany_keeps (fault : Fault) (cs : List IoCall) (s : Core × Bool × List Chunk × Option Nat) (w : World)
     (h : w.stat = s) : (ioMany fault cs w).2.stat = s := by
   induction cs generalizing w with
   | nil => exact h
@@ -62,7 +62,7 @@ theorem ioMany_keeps (fault : Fault) (cs : List IoCall) (s : Core × Bool × Lis
       unfold ioMany
       exact andThen_inv (P := fun w => w.stat = s) (ioCall_keeps fault c s w h) (fun w hw => ih w hw)
 
-theorem seekTell_keeps (fault : Fault) (f : File) (w0 : Bool) (s : Core × Bool × List Chunk) (w : World)
+theorem seekTell_keeps (fault : Fault) (f : File) (w0 : Bool) (s : Core × Bool × List Chunk × Option Nat) (w : World)
     (h : w.stat = s) : (seekTell fault f w0 w).2.stat = s := by
   unfold seekTell
   simp only []
@@ -90,65 +90,84 @@ theorem stat_img {w1 w : World} (h : w1.stat = w.stat) : w1.img = w.img := congr
 theorem stat_bound {w1 w : World} (h : w1.stat = w.stat) : w1.bound = w.bound :=
   congrArg (fun p => p.2.1) h
 theorem stat_out {w1 w : World} (h : w1.stat = w.stat) : w1.out = w.out :=
-  congrArg (fun p => p.2.2) h
+  congrArg (fun p => p.2.2.1) h
+theorem stat_live {w1 w : World} (h : w1.stat = w.stat) : w1.live = w.live :=
+  congrArg (fun p => p.2.2.2) h
 
 /-! ### what a step of the `try:` body may NOT change -/
 
 /-- relative to the core `k0` the body started from: alias, data, affine, header object and dtype code
     stay; slope / inter stay for header classes that have no such field -/
 def Inv (c : Ctx) (k0 k : Core) : Prop :=
-  k.alias = k0.alias ∧ k.data = k0.data ∧ k.affine = k0.affine ∧ k.hdrObj = k0.hdrObj ∧
-  k.hdr.dtype = k0.hdr.dtype ∧
+  k.alias = k0.alias ∧ k.data = k0.data ∧ (k.affine = k0.affine ∧ k.xflip = k0.xflip ∧ k.src = k0.src) ∧
+  k.hdrObj = k0.hdrObj ∧ k.hdr.dtype = k0.hdr.dtype ∧
   (c.t.hasSlope = false → k.hdr.slope = k0.hdr.slope) ∧ (c.t.hasInter = false → k.hdr.inter = k0.hdr.inter)
 
-theorem Inv.refl (c : Ctx) (k : Core) : Inv c k k := ⟨rfl, rfl, rfl, rfl, rfl, fun _ => rfl, fun _ => rfl⟩
+theorem Inv.refl (c : Ctx) (k : Core) : Inv c k k :=
+  ⟨rfl, rfl, ⟨rfl, rfl, rfl⟩, rfl, rfl, fun _ => rfl, fun _ => rfl⟩
+
+/-- the invariant of the `try:` body in the CURRENT code: the local `data` is never a live memory map -/
+def InvW (c : Ctx) (k0 : Core) (w : World) : Prop := Inv c k0 w.img ∧ w.live = none
 
 theorem exec_inv (c : Ctx) (k0 : Core) (hl : c.hdrLocal = k0.hdrObj) (s : Step) (w : World)
-    (h : Inv c k0 w.img) : Inv c k0 (exec c s w).2.img := by
+    (hw : InvW c k0 w) : InvW c k0 (exec c s w).2 := by
+  obtain ⟨h, hlive⟩ := hw
   cases s with
-  | mkWriter => simp only [exec]; split <;> exact h
+  | mkWriter => simp only [exec]; split <;> exact ⟨h, hlive⟩
   | setSlopeInter =>
       simp only [exec]; split
       · obtain ⟨h1, h2, h3, h4, h5, h6, h7⟩ := h
-        refine ⟨h1, h2, h3, h4, h5, ?_, ?_⟩
+        refine ⟨⟨h1, h2, h3, h4, h5, ?_, ?_⟩, hlive⟩
         · intro hs; simp [World.setHdr, hs]; exact h6 hs
         · intro hs; simp [World.setHdr, hs]; exact h7 hs
-      · exact h
+      · exact ⟨h, hlive⟩
   | chooseOffset =>
       obtain ⟨h1, h2, h3, h4, h5, h6, h7⟩ := h
       simp only [exec]; split
       · split
-        · exact ⟨h1, h2, h3, h4, h5, h6, h7⟩
-        · split <;> exact ⟨h1, h2, h3, h4, h5, h6, h7⟩
-      · exact ⟨h1, h2, h3, h4, h5, h6, h7⟩
+        · exact ⟨⟨h1, h2, h3, h4, h5, h6, h7⟩, hlive⟩
+        · split <;> exact ⟨⟨h1, h2, h3, h4, h5, h6, h7⟩, hlive⟩
+      · exact ⟨⟨h1, h2, h3, h4, h5, h6, h7⟩, hlive⟩
   | ios cs =>
-      simp only [exec]
-      rw [stat_img (ioMany_keeps c.fault cs w.stat w rfl)]
-      exact h
+      simp only [exec, InvW]
+      rw [stat_img (ioMany_keeps c.fault cs w.stat w rfl), stat_live (ioMany_keeps c.fault cs w.stat w rfl)]
+      exact ⟨h, hlive⟩
   | seekTell f w0 =>
-      simp only [exec]
-      rw [stat_img (seekTell_keeps c.fault f w0 w.stat w rfl)]
-      exact h
-  | emitHdr f => exact h
-  | emitData f => exact h
-  | emitMat => exact h
-  | emitTrailer f => exact h
+      simp only [exec, InvW]
+      rw [stat_img (seekTell_keeps c.fault f w0 w.stat w rfl), stat_live (seekTell_keeps c.fault f w0 w.stat w rfl)]
+      exact ⟨h, hlive⟩
+  | emitHdr f => exact ⟨h, hlive⟩
+  | emitData f => exact ⟨h, hlive⟩
+  | emitMat a => exact ⟨h, hlive⟩
+  | emitTrailer f => exact ⟨h, hlive⟩
+  | openW f =>
+      simp only [exec, hlive]
+      rw [if_neg (by simp)]
+      exact ⟨h, hlive⟩
   | bindHeader =>
       obtain ⟨h1, h2, h3, h4, h5, h6, h7⟩ := h
-      exact ⟨h1, h2, h3, hl, h5, h6, h7⟩
-  | bindFileMap => exact h
+      exact ⟨⟨h1, h2, h3, hl, h5, h6, h7⟩, hlive⟩
+  | bindFileMap => exact ⟨h, hlive⟩
 
 theorem runSteps_inv (c : Ctx) (k0 : Core) (hl : c.hdrLocal = k0.hdrObj) (ss : List Step) (w : World)
-    (h : Inv c k0 w.img) : Inv c k0 (runSteps c ss w).2.img := by
+    (h : InvW c k0 w) : InvW c k0 (runSteps c ss w).2 := by
   induction ss generalizing w with
   | nil => exact h
   | cons s ss ih =>
       unfold runSteps
-      exact andThen_inv (P := fun w => Inv c k0 w.img) (exec_inv c k0 hl s w h) (fun w hw => ih w hw)
+      exact andThen_inv (P := fun w => InvW c k0 w) (exec_inv c k0 hl s w h) (fun w hw => ih w hw)
 
 theorem Core.ext' {a b : Core} (h1 : a.hdr = b.hdr) (h2 : a.alias = b.alias) (h3 : a.data = b.data)
-    (h4 : a.affine = b.affine) (h5 : a.hdrObj = b.hdrObj) : a = b := by
+    (h4 : a.affine = b.affine ∧ a.xflip = b.xflip ∧ a.src = b.src) (h5 : a.hdrObj = b.hdrObj) : a = b := by
   cases a; cases b; simp_all
+
+theorem materialize_img (copy : Bool) (w : World) : (materialize copy w).img = w.img := rfl
+theorem materialize_bound (copy : Bool) (w : World) : (materialize copy w).bound = w.bound := rfl
+theorem materialize_live (w : World) : (materialize true w).live = none := by
+  unfold materialize
+  cases w.img.src with
+  | array => rfl
+  | proxy f m => cases m <;> rfl
 
 theorem Hdr.ext' {a b : Hdr} (h1 : a.offset = b.offset) (h2 : a.dtype = b.dtype) (h3 : a.slope = b.slope)
     (h4 : a.inter = b.inter) : a = b := by
@@ -170,15 +189,16 @@ theorem analyzeSave_img (t : Gen.Traits) (env : Env) (dt : DtReq) (fault : Fault
     (hrt : rtCode t w.img.hdr.dtype = w.img.hdr.dtype) :
     (analyzeSave t env dt fault w).2.img = w.img := by
   unfold analyzeSave
-  simp only []
+  simp only [materialize_img]
   split
   · rfl
   · rename_i h1 hov
     obtain ⟨ho, hs, hi⟩ := applyOverride_fields hov
     simp only [tryFinally]
-    have hinv := runSteps_inv (mkCtx t env fault w h1) (w.setHdr h1).img rfl
-      (coreBody (mkCtx t env fault w h1)) (w.setHdr h1) (Inv.refl _ _)
-    obtain ⟨i1, i2, i3, i4, i5, i6, i7⟩ := hinv
+    have hinv := runSteps_inv (mkCtx t env fault (materialize true w) h1) ((materialize true w).setHdr h1).img rfl
+      (coreBody (mkCtx t env fault (materialize true w) h1)) ((materialize true w).setHdr h1)
+      ⟨Inv.refl _ _, materialize_live w⟩
+    obtain ⟨⟨i1, i2, i3, i4, i5, i6, i7⟩, _⟩ := hinv
     apply Core.ext'
     · apply Hdr.ext'
       · rfl
@@ -195,6 +215,19 @@ theorem analyzeSave_img (t : Gen.Traits) (env : Env) (dt : DtReq) (fault : Fault
     · exact i2
     · exact i3
     · exact i4
+
+/-- in the current code the local `data` is never a live memory map when `to_file_map` returns or raises -/
+theorem analyzeSave_live (t : Gen.Traits) (env : Env) (dt : DtReq) (fault : Fault) (w : World) :
+    (analyzeSave t env dt fault w).2.live = none := by
+  unfold analyzeSave
+  simp only []
+  split
+  · exact materialize_live w
+  · rename_i h1 hov
+    simp only [tryFinally]
+    exact (runSteps_inv (mkCtx t env fault (materialize true w) h1) ((materialize true w).setHdr h1).img rfl
+      (coreBody (mkCtx t env fault (materialize true w) h1)) ((materialize true w).setHdr h1)
+      ⟨Inv.refl _ _, materialize_live w⟩).2
 
 theorem niftiRestore_img (t : Gen.Traits) (a0 : Option Alias) (d0 : Nat) (w : World) :
     (niftiRestore t a0 d0 w).img =
@@ -230,50 +263,72 @@ def Step.keepsImg : Step → Bool
   | .setSlopeInter | .chooseOffset | .bindHeader => false
   | _ => true
 
-theorem exec_keeps_img (c : Ctx) (s : Step) (w : World) (h : s.keepsImg = true) :
-    (exec c s w).2.img = w.img := by
+/-- image and liveness of the local data together (a truncating open changes the image only under a
+    live memory map) -/
+def World.il (w : World) : Core × Option Nat := (w.img, w.live)
+
+theorem exec_keeps_img (c : Ctx) (s : Step) (w : World) (h : s.keepsImg = true) (hl : w.live = none) :
+    (exec c s w).2.il = w.il := by
   cases s with
   | mkWriter => simp only [exec]; split <;> rfl
   | setSlopeInter => cases h
   | chooseOffset => cases h
-  | ios cs => simp only [exec]; exact stat_img (ioMany_keeps c.fault cs w.stat w rfl)
-  | seekTell f w0 => simp only [exec]; exact stat_img (seekTell_keeps c.fault f w0 w.stat w rfl)
+  | ios cs =>
+      simp only [exec, World.il]
+      rw [stat_img (ioMany_keeps c.fault cs w.stat w rfl), stat_live (ioMany_keeps c.fault cs w.stat w rfl)]
+  | seekTell f w0 =>
+      simp only [exec, World.il]
+      rw [stat_img (seekTell_keeps c.fault f w0 w.stat w rfl), stat_live (seekTell_keeps c.fault f w0 w.stat w rfl)]
   | emitHdr f => rfl
   | emitData f => rfl
-  | emitMat => rfl
+  | emitMat a => rfl
   | emitTrailer f => rfl
+  | openW f => simp only [exec, hl]; rw [if_neg (by simp)]
   | bindHeader => cases h
   | bindFileMap => rfl
 
-theorem runSteps_keeps_img (c : Ctx) (ss : List Step) (w : World) (h : ∀ s ∈ ss, s.keepsImg = true) :
-    (runSteps c ss w).2.img = w.img := by
+theorem runSteps_keeps_il (c : Ctx) (ss : List Step) (w : World) (h : ∀ s ∈ ss, s.keepsImg = true)
+    (hl : w.live = none) : (runSteps c ss w).2.il = w.il := by
   induction ss generalizing w with
   | nil => rfl
   | cons s ss ih =>
       unfold runSteps
-      refine andThen_inv (P := fun w' => w'.img = w.img) (exec_keeps_img c s w (h s (by simp))) ?_
+      refine andThen_inv (P := fun w' => w'.il = w.il) (exec_keeps_img c s w (h s (by simp)) hl) ?_
       intro w' hw'
-      rw [ih w' (fun s hs => h s (by simp [hs])), hw']
+      have hl' : w'.live = none := by rw [← hl]; exact congrArg Prod.snd hw'
+      rw [ih w' (fun s hs => h s (by simp [hs])) hl', hw']
+
+theorem runSteps_keeps_img (c : Ctx) (ss : List Step) (w : World) (h : ∀ s ∈ ss, s.keepsImg = true)
+    (hl : w.live = none) : (runSteps c ss w).2.img = w.img :=
+  congrArg Prod.fst (runSteps_keeps_il c ss w h hl)
+
+theorem runSteps_keeps_live (c : Ctx) (ss : List Step) (w : World) (h : ∀ s ∈ ss, s.keepsImg = true)
+    (hl : w.live = none) : (runSteps c ss w).2.live = none := by
+  rw [← hl]; exact congrArg Prod.snd (runSteps_keeps_il c ss w h hl)
 
 theorem prepare_keeps (env : Env) (f : File) : ∀ s ∈ prepare env f, s.keepsImg = true := by
-  intro s hs; unfold prepare at hs; split at hs <;> simp at hs; subst hs; rfl
+  intro s hs; unfold prepare at hs; split at hs <;> simp at hs
+  · subst hs; rfl
+  · rcases hs with rfl | rfl <;> rfl
 
 theorem closeIfMine_keeps (env : Env) (f : File) : ∀ s ∈ closeIfMine env f, s.keepsImg = true := by
   intro s hs; unfold closeIfMine at hs; split at hs <;> simp at hs; subst hs; rfl
 
 theorem withOpened_img (c : Ctx) (f : File) (body : List Step) (w : World)
-    (h : ∀ s ∈ body, s.keepsImg = true) : (withOpened c f body w).2.img = w.img := by
+    (h : ∀ s ∈ body, s.keepsImg = true) (hl : w.live = none) : (withOpened c f body w).2.img = w.img := by
   unfold withOpened
   split
   · rename_i w1 h1
-    have hw1 : w1.img = w.img := by
-      have := runSteps_keeps_img c (prepare c.env f) w (prepare_keeps c.env f)
-      rw [h1] at this; exact this
+    have hil := runSteps_keeps_il c (prepare c.env f) w (prepare_keeps c.env f) hl
+    rw [h1] at hil
+    have hw1 : w1.img = w.img := congrArg Prod.fst hil
+    have hl1 : w1.live = none := by rw [← hl]; exact congrArg Prod.snd hil
     simp only []
-    rw [runSteps_keeps_img c _ _ (closeIfMine_keeps c.env f), runSteps_keeps_img c body w1 h, hw1]
-  · exact runSteps_keeps_img c (prepare c.env f) w (prepare_keeps c.env f)
+    rw [runSteps_keeps_img c _ _ (closeIfMine_keeps c.env f) (runSteps_keeps_live c body w1 h hl1),
+      runSteps_keeps_img c body w1 h hl1, hw1]
+  · exact runSteps_keeps_img c (prepare c.env f) w (prepare_keeps c.env f) hl
 
-theorem matBody_keeps (env : Env) : ∀ s ∈ matBody env, s.keepsImg = true := by
+theorem matBody_keeps (env : Env) (a : M4) : ∀ s ∈ matBody env a, s.keepsImg = true := by
   intro s hs; simp [matBody] at hs; rcases hs with rfl | rfl <;> rfl
 
 theorem mghBody_keeps (c : Ctx) : ∀ s ∈ mghBody c, s.keepsImg = true := by
@@ -284,32 +339,53 @@ theorem spmSave_img (t : Gen.Traits) (env : Env) (dt : DtReq) (fault : Fault) (w
     (spmSave t env dt fault w).2.img = w.img := by
   unfold spmSave spmSaveWith
   have ha := analyzeSave_img t env dt fault w hrt
+  have hl := analyzeSave_live t env dt fault w
   split
   · rename_i w1 h1
-    rw [h1] at ha
-    rw [withOpened_img _ _ _ _ (matBody_keeps env)]
-    exact ha
+    rw [h1] at ha hl
+    split
+    · exact ha
+    · rw [withOpened_img _ _ _ _ (matBody_keeps env _) hl]
+      exact ha
   · exact ha
 
 theorem mghSave_img (t : Gen.Traits) (env : Env) (dt : DtReq) (fault : Fault) (w : World) :
     (mghSave t env dt fault w).2.img = w.img := by
   unfold mghSave
-  have hw := withOpened_img (mghCtx t env fault w) .image _ w (mghBody_keeps (mghCtx t env fault w))
+  have hw := withOpened_img (mghCtx t env fault (materialize true w)) .image _ (materialize true w)
+    (mghBody_keeps (mghCtx t env fault (materialize true w))) (materialize_live w)
+  rw [materialize_img] at hw
   split
   · rfl
-  · split
+  · simp only []
+    split
     · rename_i w1 h1
       rw [h1] at hw
-      simp only [runSteps, exec, Res.andThen, mghCtx, mkCtx]
+      simp only [runSteps, exec, Res.andThen, mghCtx, mkCtx, materialize_img]
       simp only [] at hw
       rw [← hw]
     · exact hw
 
-theorem ciftiSave_img (env : Env) (dt : DtReq) (fault : Fault) (w : World) :
+theorem ciftiSave_img (env : Env) (dt : DtReq) (fault : Fault) (w : World)
+    (hrtAll : ∀ c ∈ Gen.n2single.codes, rtCode Gen.n2single c = c) (hdt : w.img.hdr.dtype ∈ Gen.n2single.codes)
+    (hres : ∀ a c, env.resolve a = some c → c ∈ Gen.n2single.codes) :
     (ciftiSave env dt fault w).2.img = w.img := by
   unfold ciftiSave
   simp only []
-  split <;> rfl
+  split
+  · rfl
+  · rename_i i hi
+    have hidt : i.hdr.dtype ∈ Gen.n2single.codes ∧ i.data = w.img.data := by
+      split at hi
+      · cases hi; exact ⟨hdt, rfl⟩
+      · split at hi
+        · rename_i hc; cases hi; exact ⟨hc, rfl⟩
+        · cases hi
+      · cases hi; exact ⟨hdt, rfl⟩
+      · cases hi
+    simp only []
+    rw [niftiSave_img Gen.n2single env .none fault { w with img := i } hrtAll hidt.1 hres]
+    simp only [hidt.2]
 
 /-! ### when `self.file_map = file_map` is executed -/
 
@@ -332,8 +408,9 @@ theorem exec_bound (c : Ctx) (s : Step) (w : World) (h : s.isBindFm = false) :
   | seekTell f w0 => simp only [exec]; exact stat_bound (seekTell_keeps c.fault f w0 w.stat w rfl)
   | emitHdr f => rfl
   | emitData f => rfl
-  | emitMat => rfl
+  | emitMat a => rfl
   | emitTrailer f => rfl
+  | openW f => simp only [exec]; split <;> rfl
   | bindHeader => rfl
   | bindFileMap => cases h
 
@@ -404,7 +481,7 @@ theorem analyzeSave_binds (t : Gen.Traits) (env : Env) (dt : DtReq) (fault : Fau
   · exact binds_err _ _ _ rfl
   · rename_i h1 _
     simp only [tryFinally]
-    exact coreBody_bound (mkCtx t env fault w h1) (w.setHdr h1)
+    exact coreBody_bound (mkCtx t env fault (materialize true w) h1) ((materialize true w).setHdr h1)
 
 theorem niftiRestore_bound (t : Gen.Traits) (a0 : Option Alias) (d0 : Nat) (w : World) :
     (niftiRestore t a0 d0 w).bound = w.bound := by
@@ -424,14 +501,16 @@ theorem niftiSave_binds (t : Gen.Traits) (env : Env) (dt : DtReq) (fault : Fault
         exact analyzeSave_binds t env dt fault _
       · exact binds_err _ _ _ rfl
 
-theorem matBody_noBind (env : Env) : ∀ s ∈ matBody env, s.isBindFm = false := by
+theorem matBody_noBind (env : Env) (a : M4) : ∀ s ∈ matBody env a, s.isBindFm = false := by
   intro s hs; simp [matBody] at hs; rcases hs with rfl | rfl <;> rfl
 
 theorem mghBody_noBind (c : Ctx) : ∀ s ∈ mghBody c, s.isBindFm = false := by
   intro s hs; simp [mghBody] at hs; rcases hs with rfl | rfl | rfl | rfl | rfl | rfl | rfl <;> rfl
 
 theorem prepare_noBind (env : Env) (f : File) : ∀ s ∈ prepare env f, s.isBindFm = false := by
-  intro s hs; unfold prepare at hs; split at hs <;> simp at hs; subst hs; rfl
+  intro s hs; unfold prepare at hs; split at hs <;> simp at hs
+  · subst hs; rfl
+  · rcases hs with rfl | rfl <;> rfl
 
 theorem closeIfMine_noBind (env : Env) (f : File) : ∀ s ∈ closeIfMine env f, s.isBindFm = false := by
   intro s hs; unfold closeIfMine at hs; split at hs <;> simp at hs; subst hs; rfl
@@ -459,21 +538,27 @@ theorem spmSave_binds_of_ok (t : Gen.Traits) (env : Env) (dt : DtReq) (fault : F
   cases e with
   | none =>
       simp only []
-      rw [withOpened_bound _ _ _ _ (matBody_noBind env)]
-      exact ha.1 rfl
+      split
+      · exact ha.1 rfl
+      · rw [withOpened_bound _ _ _ _ (matBody_noBind env _)]
+        exact ha.1 rfl
   | some e => simp at h
 
 theorem mghSave_binds (t : Gen.Traits) (env : Env) (dt : DtReq) (fault : Fault) (w : World) :
     BindsOnSuccess (mghSave t env dt fault w) w := by
   unfold mghSave
-  have hb := withOpened_bound (mghCtx t env fault w) .image _ w (mghBody_noBind (mghCtx t env fault w))
+  have hb := withOpened_bound (mghCtx t env fault (materialize true w)) .image _ (materialize true w)
+    (mghBody_noBind (mghCtx t env fault (materialize true w)))
+  rw [materialize_bound] at hb
   split
   · exact binds_err _ _ _ rfl
-  · split
+  · simp only []
+    split
     · rename_i w1 h1
       simp [runSteps, exec, Res.andThen, BindsOnSuccess]
     · rename_i r hne
-      rcases hr : withOpened (mghCtx t env fault w) File.image (mghBody (mghCtx t env fault w)) w with ⟨e, w1⟩
+      rcases hr : withOpened (mghCtx t env fault (materialize true w)) File.image
+        (mghBody (mghCtx t env fault (materialize true w))) (materialize true w) with ⟨e, w1⟩
       rw [hr] at hb
       cases e with
       | none => exact absurd hr (hne w1)
